@@ -42,6 +42,8 @@ type PropConfig struct {
 	StandIns []StandIn   `json:"standins"`
 	ReplayCases map[string]string `json:"replay_cases"` // func key -> comma separated replay case names
 	Explanation string   `json:"explanation"`
+	RingFuncs []string   `json:"ring_funcs"` // functions with #ring contracts (polynomial identities mod p)
+	CtRoots  []string    `json:"ct_roots"`   // functions with #ct contracts: roots of the secret-independence analysis
 	Extra    []string    `json:"extra_cmds"` // additional deciding commands (e.g. asmvc), run from /verif
 	SpecLemmas []string  `json:"spec_lemmas"` // stand-alone SMT-LIB lemma files (must be unsat), relative to /verif
 }
@@ -329,9 +331,138 @@ func cmdCheck(args []string) {
 			violations++
 		}
 	}
+	var extraFuncs, extraTrusted []string
+	// secret-independence contracts (#ct): information-flow obligations
+	var ctInfo map[string]interface{}
+	if len(pc.CtRoots) > 0 {
+		eng := engines[""]
+		if eng == nil {
+			var err error
+			eng, err = NewEngine(*repo, "", "verif")
+			if err != nil {
+				fmt.Printf("ERROR: cannot load %s: %v\n", *repo, err)
+				os.Exit(2)
+			}
+			if err := eng.LoadContracts(ContractFilesArch(*repo, "", filepath.Join(*vdir, "spec"))); err != nil {
+				fmt.Println("ERROR: contracts:", err)
+				os.Exit(2)
+			}
+		}
+		an := NewCtAnalysis(eng)
+		for _, r := range pc.CtRoots {
+			if err := an.AnalyseRoot(r); err != nil {
+				lines = append(lines, fmt.Sprintf("STALE-CONTRACT property=%s %v", id, err))
+				p := writeReplay(map[string]interface{}{"property": id, "stale_ct_contract": r, "error": err.Error()})
+				lines = append(lines, fmt.Sprintf("VIOLATION property=%s replay=%s constant-time contract of %s no longer binds: %v no-failing-input-found", id, p, r, err))
+				violations++
+			}
+		}
+		nct, okct := 0, 0
+		seenKF := map[string]bool{}
+		for _, o := range an.Obligations() {
+			nct++
+			if o.OK {
+				okct++
+				if len(samples) < 10 && okct%37 == 1 {
+					samples = append(samples, map[string]string{"obligation": o.Name, "pos": o.Pos, "solver": "information-flow analysis (govc ct)"})
+				}
+				continue
+			}
+			if f := matchFinding(findings, id, o.Name); f != nil {
+				known++
+				okct++
+				if !seenKF[f.Text] {
+					seenKF[f.Text] = true
+					lines = append(lines, fmt.Sprintf("KNOWN-FINDING: property=%s %s (obligation %s at %s)", id, f.Text, o.Name, o.Pos))
+				}
+				continue
+			}
+			p := writeReplay(map[string]interface{}{"property": id, "obligation": o.Name, "position": o.Pos, "what": o.What,
+				"verifier_output": "information-flow analysis: " + o.What, "note": "a secret-dependent branch/address has no failing input in the functional sense; the witness is the flow itself"})
+			lines = append(lines, fmt.Sprintf("VIOLATION property=%s replay=%s obligation=%s at %s: %s no-failing-input-found", id, p, o.Name, o.Pos, o.What))
+			violations++
+		}
+		total += nct
+		discharged += okct
+		solverCount["information-flow analysis (govc ct)"] += okct
+		var fl []string
+		for f := range an.funcs {
+			fl = append(fl, f+" (constant-time contract)")
+		}
+		sort.Strings(fl)
+		extraFuncs = append(extraFuncs, fl...)
+		var decl []string
+		for k, v := range an.declUsed {
+			decl = append(decl, "declassified: "+k+" -- "+v)
+		}
+		sort.Strings(decl)
+		extraTrusted = append(extraTrusted, decl...)
+		ctInfo = map[string]interface{}{"roots": pc.CtRoots, "obligations": nct, "discharged": okct, "functions_reached": len(an.funcs), "declassifications": decl, "notes": an.notes}
+	}
+	// ring-mode contracts: polynomial identities of straight-line field code
+	if len(pc.RingFuncs) > 0 {
+		eng := engines[""]
+		if eng == nil {
+			var err error
+			eng, err = NewEngine(*repo, "", "verif")
+			if err != nil {
+				fmt.Printf("ERROR: cannot load %s: %v\n", *repo, err)
+				os.Exit(2)
+			}
+			if err := eng.LoadContracts(ContractFilesArch(*repo, "", filepath.Join(*vdir, "spec"))); err != nil {
+				fmt.Println("ERROR: contracts:", err)
+				os.Exit(2)
+			}
+			engines[""] = eng
+		}
+		nr, okr := 0, 0
+		for _, f := range pc.RingFuncs {
+			obs, err := eng.VerifyRing(f)
+			if err != nil {
+				p := writeReplay(map[string]interface{}{"property": id, "stale_ring_contract": f, "error": err.Error()})
+				lines = append(lines, fmt.Sprintf("STALE-CONTRACT property=%s %v", id, err))
+				fails := runReplay(f, 400)
+				if len(fails) > 0 {
+					lines = append(lines, fmt.Sprintf("VIOLATION property=%s replay=%s ring contract of %s no longer binds; input: %s", id, p, f, truncate(fails[0], 300)))
+				} else {
+					lines = append(lines, fmt.Sprintf("VIOLATION property=%s replay=%s ring contract of %s no longer binds: %v no-failing-input-found", id, p, f, err))
+				}
+				violations++
+				continue
+			}
+			extraFuncs = append(extraFuncs, f+" (ring contract)")
+			for _, o := range obs {
+				nr++
+				if o.OK {
+					okr++
+					if okr%11 == 1 && len(samples) < 10 {
+						samples = append(samples, map[string]string{"obligation": o.Name, "pos": o.Pos, "solver": "polynomial normal form mod P (govc ring)"})
+					}
+					continue
+				}
+				if fd := matchFinding(findings, id, o.Name); fd != nil {
+					known++
+					okr++
+					lines = append(lines, fmt.Sprintf("KNOWN-FINDING: property=%s %s (obligation %s)", id, fd.Text, o.Name))
+					continue
+				}
+				fails := runReplay(f, 400)
+				rec := map[string]interface{}{"property": id, "obligation": o.Name, "position": o.Pos, "verifier_output": o.Msg, "replay_failures": fails}
+				p := writeReplay(rec)
+				if len(fails) > 0 {
+					lines = append(lines, fmt.Sprintf("VIOLATION property=%s replay=%s obligation=%s input: %s", id, p, o.Name, truncate(fails[0], 300)))
+				} else {
+					lines = append(lines, fmt.Sprintf("VIOLATION property=%s replay=%s obligation=%s: %s no-failing-input-found", id, p, o.Name, truncate(o.Msg, 200)))
+				}
+				violations++
+			}
+		}
+		total += nr
+		discharged += okr
+		solverCount["polynomial normal form mod P (govc ring)"] += okr
+	}
 	// extra deciding commands (e.g. the assembly verifier)
 	var extras []map[string]interface{}
-	var extraFuncs, extraTrusted []string
 	for _, c := range pc.Extra {
 		c = strings.ReplaceAll(c, "{repo}", *repo)
 		cmd := osexec.Command("sh", "-c", c)
@@ -456,6 +587,7 @@ func cmdCheck(args []string) {
 			"samples": samples,
 			"bounded_standins": bounded,
 			"extra_checks": extras,
+			"constant_time_analysis": ctInfo,
 			"explanation": pc.Explanation,
 			"per_obligation_timeout_s": timeout,
 		}
